@@ -154,6 +154,11 @@ def monitor(ctx, extended=False):
                     p = dict(pl.slurry._params)
                     p.update(Cv=E.pick_Cv(ctx.rng), rhos=ctx.rng.choice([2.65, 3.0, p['rhos']]), r85=min(p['r85'], ctx.rng.uniform(1.1, 4.0)))
                     p['Dp'] = pl.slurry.Dp
+                    # stay inside E: D50 above the pseudo-liquid limit of every diameter in the line also for the new solids density
+                    nu_, rhol_ = E.fluids()[p['fluid']]
+                    dias_ = [x.diameter for x in pl.pipesections if isinstance(x, Pipe)] + [p['Dp']]
+                    if p['D50'] < 1.001 * max(E.dlim(dd, nu_, rhol_, p['rhos']) for dd in dias_):
+                        p['rhos'] = pl.slurry.rhos
                     s2 = E.make_slurry(p)
                     s2._params = p
                     pl.slurry = s2
@@ -202,6 +207,10 @@ def monitor(ctx, extended=False):
             p2 = dict(pl.slurry._params)
             p2.update(Cv=E.pick_Cv(ctx.rng), rhos=ctx.rng.choice([2.65, 3.0, 3.4]))
             p2['Dp'] = pl.slurry.Dp
+            nu_, rhol_ = E.fluids()[p2['fluid']]
+            dias_ = [x.diameter for x in pl.pipesections if isinstance(x, Pipe)] + [p2['Dp']]
+            if p2['D50'] < 1.001 * max(E.dlim(dd, nu_, rhol_, p2['rhos']) for dd in dias_):
+                p2['rhos'] = max(p2['rhos'], pl.slurry.rhos)
             s3 = E.make_slurry(p2)
             s3._params = p2
             pl_b = Pipeline(pipe_list=list(pl.pipesections), slurry=s3)
